@@ -110,7 +110,7 @@ PROPS = {
                      'non-trivial and distinct = distinct trace hashes of histories in which >= 1 fault fired inside a create or load (fault-free histories are counted separately); about one small history in eight is expanded into the exhaustive single-fault sweep (every I/O call index x every gating fault kind)',
                 assumptions=COMMON_ASSUME + ['write errors, crashes, torn or lost writes are not injected: no property quantifies over them and the code has no handling (DESIGN.md 3.4)']),
     'C12': dict(level='exploration', budget={'quick': Q, 'thorough': T}, groups=C(),
-                rule='one case = (MappedPGMIndex configuration, sorted integer sequence with duplicate runs sized against the search range and the gallop of upper_bound, a history of container operations: create-from-range(F1), write raw file + create-from-raw(F2), reopen(F1/F2), reopen-again, query, destroy in seeded order with several containers alive on one file; I/O faults attached to operations by call index: eintr and short_io on every read/write/writev, fail-stop open_fail/mmap_fail; half of the runs fault-free; E1 for large files; the range comes from a std::vector or a std::deque; a quarter of the creations find a stale file of another size at the output path)' + '; oracle: F1 and F2 byte-identical; header fields (n, first_key, levels_offsets, segments) of every instance equal those of an index built over the same sequence; a reopen leaves the file byte-identical and performs no write-class call on it (shim monitor). non-trivial as C11; includes the exhaustive single-fault sweep on small creations',
+                rule='one case = (MappedPGMIndex configuration, sorted integer sequence with duplicate runs sized against the search range and the gallop of upper_bound, a history of container operations: create-from-range(F1), write raw file + create-from-raw(F2), reopen(F1/F2), reopen-again, query, destroy in seeded order with several containers alive on one file; I/O faults attached to operations by call index: eintr and short_io on every read/write/writev, fail-stop open_fail/mmap_fail; half of the runs fault-free; E1 for large files; the range comes from a std::vector or a std::deque; a quarter of the creations find a stale file of another size at the output path)' + '; oracle: F1 and F2 byte-identical; header fields (n, first_key, levels_offsets, segments) of every instance equal those of an index built over the same sequence; a reopen leaves the file byte-identical - right after the reopen, after the queries of the reopened object and after its destruction (write-class calls during a reopen are counted by the shim monitor, not judged). non-trivial as C11; includes the exhaustive single-fault sweep on small creations',
                 assumptions=COMMON_ASSUME + ['write errors, crashes, torn or lost writes are not injected: no property quantifies over them and the code has no handling (DESIGN.md 3.4)']),
     'C16': dict(level='exploration', budget={'quick': Q, 'thorough': T},
                 groups=[{'engine': 'readsim', 'flavour': 'tsan', 'weight': 9}, {'engine': 'readsim', 'flavour': 'plain', 'weight': 4}, {'engine': 'readsim', 'flavour': 'asan', 'weight': 3}],
